@@ -227,6 +227,17 @@ def _check_main(ctx, rep: Report):
                         if isinstance(g, ast.If) and any(x is n for x in ast.walk(g)) and \
                                 ("__instance__" in ast.unparse(g.test) or "hasattr(self" in ast.unparse(g.test)):
                             guarded = True
+                    if not guarded and name.startswith("_") and not name.startswith("__"):
+                        # a private helper: guarded if every call of it sits under the first-time guard
+                        sites = []
+                        for on, odefs in ci.methods.items():
+                            for c_ in ast.walk(odefs[0].node):
+                                if isinstance(c_, ast.Call) and isinstance(c_.func, ast.Attribute) and c_.func.attr == name \
+                                        and ast.unparse(c_.func.value) in ("cls", "self", ci.name):
+                                    g_ok = any(isinstance(g, ast.If) and any(x is c_ for x in ast.walk(g)) and "__instance__" in ast.unparse(g.test)
+                                               for g in ast.walk(odefs[0].node))
+                                    sites.append(g_ok)
+                        guarded = bool(sites) and all(sites)
                     if not guarded:
                         bad.append((name, t.attr, n.lineno))
     for name, attr, ln in bad:
